@@ -36,6 +36,7 @@ import XdslModel.IRWF
 import XdslModel.Skeleton
 import XdslModel.LowerAffine
 import XdslModel.Excluded
+import XdslModel.RiscVFrameFloat
 /-!
 Model registry for the driver: `MODEL <name>` selects a `(state, lineStep)` pair.
 A continuation-passing encoding is used because the state types differ.
@@ -87,6 +88,7 @@ def run? (name : String) : Option Runner :=
       k RegAlloc.stackLineStep ({ z := false, allowInf := false, infBase := 1000 }, [{}])
   | "lower_affine" => some fun k => k LowerAffine.lineStep ()
   | "excluded_walk" => some fun k => k RegAlloc.walkLineStep ()
+  | "riscv_frame" => some fun k => k RiscV.frameFloatLineStep ()
   | _ => none
 
 end Xdsl.Registry
